@@ -37,7 +37,9 @@ def expected(I, z3, m):
         t26.append(And(g, f23.present(), Or(bad_currency, bad_days, bad_function, days_without_notice)))
     x["T26"] = Or(*t26)
 
-    # Field 37H: Indicator must be C or D (T51); Sign must not be used if Rate is zero (T14)
+    # Field 37H: Indicator must be C or D (T51); Sign must not be used if Rate is zero (T14).
+    # "Sign used" = `is_negative` holds a value (the library writes the sign N for any Some(_), parses N to Some(true));
+    # "Rate is zero" = the number is zero - the rule text gives no tolerance (12d can carry e.g. 0,000001, not zero).
     t51, t14 = [], []
     for g, s in seqs:
         for g2, r in s.f("field_37h").items():
@@ -46,3 +48,30 @@ def expected(I, z3, m):
     x["T51"] = Or(*t51)
     x["T14"] = Or(*t14)
     return x
+
+
+def assumptions(I, z3, m):
+    """What Field23::parse guarantees for the three stored subfields of a parsed field 23. The rule is about the wire
+    value 3!a[2!n]11x and the struct is the parser's split of that value; a JSON-built instance can hold a different
+    split of a well-formed value, which the subfield-wise reading above flags and the implementation (which validates
+    the re-concatenated value) does not. Each of the three is needed (dropping any one gives a `sat` witness at K=1):
+      - `function_code` is exactly the first three characters (input[0..3]);
+        otherwise e.g. {function_code: "BSGCOMMERCIA", reference: "L"} = wire value "BSGCOMMERCIAL";
+      - none of them is a lower-case letter (parse_uppercase); the implementation's check of the Currency subfield
+        is "ASCII alphabetic" while 3!a means upper-case letters - indistinguishable on parsed messages,
+        otherwise e.g. {function_code: "AdA", reference: "CURRENT"};
+      - when `days` is absent, `reference` does not begin with two digits (the parser takes two digits after the
+        first three characters as the Number of Days), otherwise e.g. {function_code: "HBP", reference: "01NOTICE"}."""
+    from rulecheck import And, Or, Not
+    digit = z3.Range("0", "9")
+    lower = z3.Range("a", "z")
+    anyc = z3.Star(z3.AllChar(z3.ReSort(z3.StringSort())))
+    out = []
+    for g, s in I.f("rate_changes").items():
+        f23 = s.f("field_23")
+        cur, days, fn = f23.some().f("function_code"), f23.some().f("days"), f23.some().f("reference")
+        here = And(g, f23.present())
+        out.append(Or(Not(here), z3.Length(cur.s()) == 3))
+        out.append(Or(Not(here), Not(z3.InRe(cur.s(), z3.Concat(anyc, lower, anyc)))))
+        out.append(Or(Not(here), days.present(), Not(z3.InRe(fn.s(), z3.Concat(digit, digit, anyc)))))
+    return out
